@@ -231,9 +231,12 @@ def end_char_obligations(version: str) -> list:
             else:
                 # char_data appends (opaque concat of t0 and data), end() normalises that
                 ok = isinstance(t.value, SV) and isinstance(midv, SV)
-                goal = (t.value.z == lmfrt.wsnorm(midv.z)) if ok else z3.BoolVal(False)
+                whole = B.uf('str_concat', UStr, UStr, UStr)(t0.z, d.z)          # text so far + data
+                goal = (t.value.z == lmfrt.wsnorm(whole)) if ok else z3.BoolVal(False)
                 obs.append(Obligation(f'{base}:p{n}:normalised', kind='post', assumptions=list(o.pc) + lit_axioms(),
-                                      goal=goal, detail="text == ' '.join((text so far + data).split())", **cm))
+                                      goal=goal, detail="char_data appends (expat delivers text in pieces) and end() "
+                                                        "normalises: text == ' '.join((text so far + data).split())",
+                                      **cm))
     return obs
 
 
